@@ -369,6 +369,37 @@ impl File {
         })))
     }
 
+    /// Open for appending without truncation (the simulated standard output).
+    pub fn append<P: AsRef<Path>>(path: P) -> io::Result<File> {
+        if !active() {
+            return std::fs::OpenOptions::new()
+                .create(true)
+                .append(true)
+                .open(path)
+                .map(|f| File(Inner::Real(f)));
+        }
+        io_point();
+        let key = path_key(path);
+        let (data, is_target) = with(|w| {
+            let t = !w.faults.target.is_empty() && key.ends_with(&w.faults.target);
+            let d = w
+                .files
+                .entry(key.clone())
+                .or_insert_with(|| Arc::new(Mutex::new(Vec::new())))
+                .clone();
+            (d, t)
+        })
+        .unwrap();
+        let end = data.lock().unwrap().len() as u64;
+        Ok(File(Inner::Sim(SimHandle {
+            path: key,
+            data,
+            pos: Arc::new(AtomicU64::new(end)),
+            writable: true,
+            is_target,
+        })))
+    }
+
     pub fn try_clone(&self) -> io::Result<File> {
         match &self.0 {
             Inner::Real(f) => f.try_clone().map(|f| File(Inner::Real(f))),
@@ -613,5 +644,77 @@ impl Seek for File {
         }
         h.pos.store(target as u64, Ordering::SeqCst);
         Ok(target as u64)
+    }
+}
+
+/// Path under which a simulated run collects what the CLI commands print to standard output.
+pub const STDOUT_PATH: &str = "/dev/stdout";
+
+/// Standard output of the CLI commands: the real one outside a simulated run, a file on the sim
+/// disk (subject to the fault plan like any other file) inside one.
+pub enum Stdout {
+    Real(io::Stdout),
+    Sim(File),
+}
+
+pub fn stdout() -> Stdout {
+    if active() {
+        match File::append(STDOUT_PATH) {
+            Ok(f) => Stdout::Sim(f),
+            Err(_) => Stdout::Real(io::stdout()),
+        }
+    } else {
+        Stdout::Real(io::stdout())
+    }
+}
+
+impl Write for Stdout {
+    fn write(&mut self, buf: &[u8]) -> io::Result<usize> {
+        match self {
+            Stdout::Real(s) => s.write(buf),
+            Stdout::Sim(f) => f.write(buf),
+        }
+    }
+    fn flush(&mut self) -> io::Result<()> {
+        match self {
+            Stdout::Real(s) => s.flush(),
+            Stdout::Sim(f) => f.flush(),
+        }
+    }
+}
+
+/// The `std::fs` free functions the CLI uses, on the sim disk inside a simulated run.
+pub mod fs {
+    use super::{active, path_key, with, File};
+    use std::io::{self, Read, Write};
+    use std::path::Path;
+
+    pub fn read<P: AsRef<Path>>(path: P) -> io::Result<Vec<u8>> {
+        if !active() {
+            return std::fs::read(path);
+        }
+        let mut f = File::open(path)?;
+        let mut v = Vec::new();
+        f.read_to_end(&mut v)?;
+        Ok(v)
+    }
+
+    pub fn write<P: AsRef<Path>>(path: P, data: &[u8]) -> io::Result<()> {
+        if !active() {
+            return std::fs::write(path, data);
+        }
+        let mut f = File::create(path)?;
+        f.write_all(data)
+    }
+
+    pub fn remove_file<P: AsRef<Path>>(path: P) -> io::Result<()> {
+        if !active() {
+            return std::fs::remove_file(path);
+        }
+        let key = path_key(path);
+        match with(|w| w.files.remove(&key)).flatten() {
+            Some(_) => Ok(()),
+            None => Err(io::Error::new(io::ErrorKind::NotFound, format!("sim disk: no such file: {key}"))),
+        }
     }
 }
